@@ -84,7 +84,7 @@ class HeapMixin:
                 if ci is not None:
                     c = self.repo.lookup_const(ci, attr)
                     if c is not None:
-                        return self.eval(c[0], E.Frame(c[1].mod.relpath, c[1]))
+                        return self.class_const(c, attr)
                 if rec.sym is not None and (ci is None or not ci.is_dataclass):
                     raise E.Unsupported(f"no shape for field {rec.cls}.{attr}")
                 raise E.PyExc(VExc("AttributeError"), f"{rec.cls}.{attr}")
@@ -111,7 +111,7 @@ class HeapMixin:
                     return self.enum_member(ci.name, attr)
             c = self.repo.lookup_const(ci, attr)
             if c is not None:
-                return self.eval(c[0], E.Frame(c[1].mod.relpath, c[1]))
+                return self.class_const(c, attr)
             m = self.repo.lookup_method(ci, attr)
             if m is not None:
                 return VFunc(m[0], None, m[1], m[1].mod.relpath, attr)
@@ -198,6 +198,16 @@ class HeapMixin:
         if isinstance(v, VNone):
             raise E.PyExc(VExc("AttributeError"), f"None.{attr} =")
         raise E.Unsupported(f"setattr on {v!r}")
+
+    def class_const(self, c, attr):
+        """value of a class-level constant; a container obtained this way is SHARED by every instance of the class: writing into it through
+        one instance changes the behaviour of all others (reported as an obligation of the function under verification)"""
+        v = self.eval(c[0], E.Frame(c[1].mod.relpath, c[1]))
+        if isinstance(v, VRef) and v.kind in ("dict", "list", "set"):
+            if not hasattr(self.run, "class_consts"):
+                self.run.class_consts = {}
+            self.run.class_consts[v.oid] = f"{c[1].name}.{attr}"
+        return v
 
     def cb_spec(self, name, default=None):
         """callback spec by (suffix of) its qualified name from the contract"""
